@@ -376,6 +376,20 @@ def _discharge(ob, facts, goal, t0, timeout_ms, use_cvc5, both, small_terms, ris
                 ob.verdict, ob.backend = "proved", "cvc5"
             elif v == "sat":
                 ob.verdict, ob.backend = "refuted", "cvc5"
+    if ob.verdict == "undecided" and small_terms:
+        # bounded model search: with the declared sizes (rows, widths, lengths) bounded, recursive functions unfold
+        # finitely and the quantified axioms are decidable by model-based instantiation; a model found this way is a
+        # genuine counterexample of the *unbounded* obligation (it satisfies every assertion) and is validated below
+        for bound in (2, 4):
+            try:
+                s2 = _mk_solver(facts, ob.pc, goal, 4000)
+                for t_ in small_terms:
+                    s2.add(t_ <= bound)
+                if s2.check() == z3.sat:
+                    ob.verdict, ob.backend, ob.model = "refuted", "z3(bounded sizes <= %d)" % bound, s2.model()
+                    break
+            except z3.Z3Exception:
+                break
     if ob.verdict == "refuted" and ob.model is not None and not model_validates(ob.model, facts, ob.pc, goal):
         ob.verdict = "undecided"
         ob.note = "solver answered sat but its model does not falsify the goal when evaluated (unchecked model)"
